@@ -2,6 +2,7 @@
 package checks
 
 import (
+	"math/big"
 	"sort"
 
 	"verifsim/engine"
@@ -32,3 +33,5 @@ func IDs() []string {
 	sort.Strings(ids)
 	return ids
 }
+
+func bigInt(v int64) *big.Int { return big.NewInt(v) }
